@@ -76,3 +76,32 @@ Theorem C15_merge_enum_default_stale_refuted : exists o p q r vt vals cls v,
   mp_pl r = PL_enum vt vals cls /\ mp_dflt r = Some v /\ is_prefix (cls ++ [46]) (code v) = false.
 Proof. exact merge_enum_default_stale_refuted. Qed.
 Print Assumptions C15_merge_enum_default_stale_refuted.
+
+(* the full property loop of _process_properties (ProcProps.v: merging together with the python-name conflict resolution of C09)
+   collects exactly what `collect` collects: the theorems above about names and requiredness hold for the composed model *)
+Require Import OPC.Scopes OPC.ProcProps OPC.ProcPropsThm.
+Theorem C15_process_collect : forall o prefix ins out,
+  process o prefix ins = POk out -> collect o (payloads ins) = Some (payloads out).
+Proof. exact process_collect. Qed.
+Print Assumptions C15_process_collect.
+
+Theorem C15_process_names_exact : forall o prefix ins out,
+  process o prefix ins = POk out ->
+  map i_name out = in_names ins /\ NoDup (map i_name out) /\
+  forall n, In n (map i_name out) <-> In n (map i_name ins).
+Proof. exact process_names_exact. Qed.
+Print Assumptions C15_process_names_exact.
+
+Theorem C15_process_required : forall o prefix ins out x,
+  process o prefix ins = POk out -> In x out ->
+  mp_required (i_prop x) = existsb (fun i => str_eqb (i_name x) (i_name i) && mp_required (i_prop i)) ins.
+Proof. exact process_required. Qed.
+Print Assumptions C15_process_required.
+
+Theorem C15_process_doc_names_exact : forall o prefix d out,
+  process_doc o prefix d = POk out ->
+  exists ins, doc_inputs o prefix d = Some ins /\
+    map i_name out = in_names ins /\ NoDup (map i_name out) /\ (forall n, In n (map i_name out) <-> In n (map i_name ins)) /\
+    collect o (payloads ins) = Some (payloads out).
+Proof. exact process_doc_names_exact. Qed.
+Print Assumptions C15_process_doc_names_exact.
